@@ -168,6 +168,10 @@ def build(run):
         yield "rhs", lambda: dot(ufl.as_vector([f, f * f]), vu) * dx + f * vp * ds
         yield "indexed mixed arguments directly", lambda: (u[0] * v[2] + u[2] * v[1] + u[1] * v[1]) * dx
         yield "interior facet", lambda: jump(up) * avg(vu[0]) * dS
+        # list tensors written by the user, with literal zero entries and with entries taken from different sub-functions
+        yield "buoyancy: p e_y . v (list tensor with a zero entry)", lambda: (inner(uu, vu) + 3 * up * inner(ufl.as_vector([0, 1]), vu) + 5 * up * vp) * dx
+        yield "list tensor mixing sub-functions [u_0, p]", lambda: (dot(ufl.as_vector([uu[0], up]), vu) + dot(ufl.as_vector([0, uu[1]]), ufl.as_vector([vp, vu[0]]))) * dx
+        yield "rhs with a unit vector", lambda: (f * dot(ufl.as_vector([1, 0]), vu) + f * vp) * dx
     mixed_route("P2v-P1", (P2v, P1), forms2)
 
     def forms3(v, u):
@@ -228,6 +232,8 @@ def build(run):
             ("stokes", lambda: (inner(grad(u0), grad(v0)) - div(v0) * u1 - div(u0) * v1) * dx, 2),
             ("with mass", lambda: (inner(u0, v0) + u1 * v1 + f * u1 * div(v0)) * dx + u1 * v1 * ds(3), 2),
             ("rhs", lambda: (f * v1 + dot(ufl.as_vector([f, 1]), v0)) * dx, 1),
+            ("buoyancy (list tensor with a zero entry)", lambda: (inner(u0, v0) + 3 * u1 * inner(ufl.as_vector([0, 1]), v0) + 5 * u1 * v1) * dx, 2),
+            ("rhs with a unit vector", lambda: (f * dot(ufl.as_vector([0, 1]), v0) + v1) * dx, 1),
         ]
         for fname, mkF, arity in forms:
             idx = list(itertools.product(range(2), repeat=2)) if arity == 2 else [(0, None), (1, None)]
